@@ -1,5 +1,5 @@
 #!/bin/bash
 # usage: evalall.sh <dir-with-*/patch.diff ...>  — runs evalpatch on each with 4 persistent worktrees
 export VERBOSE=${VERBOSE:-1}
-ls -d "$@" | xargs -P 4 -I{} sh -c 'n=$(( $$ % 4 )); exec 9>/tmp/evalwt.lock.$n; flock 9; EVALWT=/tmp/evalwt.$n /verif/tools/evalpatch.sh {}/patch.diff all > {}/eval.txt 2>&1'
+ls -d "$@" | xargs -P 4 --process-slot-var=SLOT -I{} sh -c 'EVALWT=/tmp/evalwt.$SLOT /verif/tools/evalpatch.sh {}/patch.diff ${PROPS:-all} > {}/eval.txt 2>&1'
 for d in "$@"; do cat $d/eval.txt; done
